@@ -569,6 +569,11 @@ func convertStringToTv(schemaType *sdcpb.SchemaLeafType, v string, ts uint64) (*
 			Timestamp: ts,
 			Value:     &sdcpb.TypedValue_StringVal{StringVal: v},
 		}, nil
+	case "empty":
+		return &sdcpb.TypedValue{
+			Timestamp: ts,
+			Value:     &sdcpb.TypedValue_EmptyVal{},
+		}, nil
 	case "": // presence ?
 		return &sdcpb.TypedValue{}, nil
 	}
